@@ -49,15 +49,18 @@ def launch(run, jobs, timeout=600):
             e.update({"PYTHONPATH": "%s:%s" % (vlib.REPO, vlib.VERIF / "tools" / "impl"), "PYTHONDONTWRITEBYTECODE": "1",
                       "SYMPDE_VERIF": "1"})
             e.update(env)
-            p = subprocess.Popen(["timeout", str(timeout), vlib.PY, str(vlib.VERIF / "tools" / "impl" / "C12_impl.py"),
-                                  str(inp), str(outp)], env=e, cwd=str(run.work), stdout=subprocess.PIPE,
+            cmd, cov = run._runner_cmd("C12_impl", inp, outp)
+            if cov is not None:
+                e["VERIF_COVER_SPEC"] = str(run.cover_spec)
+            p = subprocess.Popen(["timeout", str(timeout)] + cmd, env=e, cwd=str(run.work), stdout=subprocess.PIPE,
                                  stderr=subprocess.STDOUT, text=True)
-            procs[nxt] = (p, outp)
+            procs[nxt] = (p, outp, cov)
             nxt += 1
-        done = [k for k, (p, _) in procs.items() if p.poll() is not None]
+        done = [k for k, (p, _o, _c) in procs.items() if p.poll() is not None]
         for k in done:
-            p, outp = procs.pop(k)
+            p, outp, cov = procs.pop(k)
             log = p.stdout.read()
+            run._merge_cov(cov)
             if outp.exists():
                 res[k] = json.loads(outp.read_text())
             else:
